@@ -6,7 +6,7 @@
    coap_io_prepare_io, ACK / RST branches of coap_dispatch). *)
 From LibcoapV Require Import Base.Tactics Sched.FixedPoint Sched.FixedPointProofs
   Sched.SendQueue Sched.SendQueueProofs Sched.Retransmit Sched.RetransmitProofs
-  Sched.RetransmitTimeProofs.
+  Sched.RetransmitTimeProofs Sched.RetransmitSpacingProofs.
 From Coq Require Import Sorting.Permutation.
 Local Open Scope Z_scope.
 
@@ -125,6 +125,22 @@ Proof.
 Qed.
 Print Assumptions C06_queue_remove.
 
+(* coap_cancel_all_messages / coap_cancel_session_messages (cancel by session + token, by session):
+   exactly the matching nodes disappear, every other node keeps its deadline and place *)
+Theorem C06_queue_cancel : forall p q base,
+  sq_abs base (snd (sq_cancel p q)) = filter (fun e => negb (p (snd e))) (sq_abs base q) /\
+  fst (sq_cancel p q) = filter p (map snd q).
+Proof. exact sq_abs_cancel. Qed.
+Print Assumptions C06_queue_cancel.
+
+(* as the two functions were before /repo f424a16 (plain unlinking) this failed: the nodes behind
+   a cancelled one - of any session - became due earlier (finding F06-1, fixed) *)
+Theorem C06_queue_cancel_prefix_refuted : exists p q base,
+  sq_wf q /\
+  sq_abs base (snd (sq_cancel_nobump p q)) <> filter (fun e => negb (p (snd e))) (sq_abs base q).
+Proof. exact sq_cancel_nobump_shifts. Qed.
+Print Assumptions C06_queue_cancel_prefix_refuted.
+
 (* coap_adjust_basetime: moving the base backwards keeps every deadline ... *)
 Theorem C06_adjust_basetime_back : forall base q now c b' q',
   now <= base -> sq_adjust_basetime base q now = (c, b', q') ->
@@ -153,12 +169,58 @@ Theorem C06_schedule : forall t0 base0 k s m b cfg r fuel,
   let (st1, o1) := rt_send (rt_mk_state t0 base0 [] k) s m b cfg r in
   let (st2, o2) := rt_punctual fuel st1 in
   filter rt_is_tx_nack (o1 ++ o2) =
-    map (fun j => RoTx (rt_sched_time t0 T j) k s b) (seq 0 (S (Z.to_nat mx))) ++
+    map (fun j => RoTx (rt_sched_time t0 T j) k s b (Z.of_nat j) T) (seq 0 (S (Z.to_nat mx))) ++
     [RoNack (rt_sched_time t0 T (S (Z.to_nat mx))) k s rt_NACK_TOO_MANY_RETRIES m mx mx] /\
   rs_q st2 = [] /\ rs_now st2 = rt_sched_time t0 T (S (Z.to_nat mx)) /\
   (exists o', o2 = o' ++ [RoWait (rs_now st2) 0 (-1)]).
 Proof. exact rt_schedule. Qed.
 Print Assumptions C06_schedule.
+
+(* The same law for EVERY driver and every traffic (ticks at any times, late or early, other
+   messages, answers of the peer): transmission number i of a message carries retransmit
+   counter i, and transmission i+1 comes with the same T, never earlier than T * 2^i after
+   transmission i ... *)
+Theorem C06_spacing : forall t0 evs u,
+  Forall rt_ev_ok evs ->
+  let tr := snd (rt_run (rt_init t0) evs) in
+  forall i t c T, nth_error (rt_tproj u tr) i = Some (t, c, T) ->
+    c = Z.of_nat i /\
+    forall t' c' T', nth_error (rt_tproj u tr) (S i) = Some (t', c', T') ->
+      T' = T /\ t + T * 2 ^ Z.of_nat i <= t'.
+Proof. exact rt_spacing. Qed.
+Print Assumptions C06_spacing.
+
+(* ... the deadline of every queued message is its last transmission + T * 2^retransmit_cnt
+   (C06_wait_sound: a prepare call leaves nothing behind that is due, so the retransmission
+   happens at the first prepare call or datagram arrival at or after that deadline) ... *)
+Theorem C06_deadline_law : forall t0 evs d n,
+  Forall rt_ev_ok evs ->
+  let st := fst (rt_run (rt_init t0) evs) in
+  let tr := snd (rt_run (rt_init t0) evs) in
+  In (d, n) (sq_abs (rs_base st) (rs_q st)) ->
+  exists l t, rt_tproj (qn_uid n) tr = l ++ [(t, qn_cnt n, qn_timeout n)] /\
+              d = t + qn_timeout n * 2 ^ qn_cnt n.
+Proof. exact rt_deadline_law. Qed.
+Print Assumptions C06_deadline_law.
+
+(* ... giving up is never early either: a NACK TOO_MANY_RETRIES comes no sooner than T * 2^cnt
+   after the last transmission (cnt = MAX_RETRANSMIT by C06_one_outcome) ... *)
+Theorem C06_giveup_not_early : forall t0 evs tr1 t u s m c mx tr2,
+  Forall rt_ev_ok evs ->
+  snd (rt_run (rt_init t0) evs) = tr1 ++ RoNack t u s rt_NACK_TOO_MANY_RETRIES m c mx :: tr2 ->
+  exists l tl T, rt_tproj u tr1 = l ++ [(tl, c, T)] /\ tl + T * 2 ^ c <= t.
+Proof. exact rt_giveup_not_early. Qed.
+Print Assumptions C06_giveup_not_early.
+
+(* ... and T is computed once, from the session's settings and one random byte, when the
+   message is accepted *)
+Theorem C06_T_drawn_once : forall st s m b cfg r,
+  snd (rt_send st s m b cfg r) =
+  [RoTx (rs_now st) (rs_uid st) s b 0
+        (fp_calc_timeout (rc_at_ip cfg) (rc_at_fp cfg) (rc_arf_ip cfg) (rc_arf_fp cfg) r);
+   RoSent m].
+Proof. exact (fun st s m b cfg r => eq_refl). Qed.
+Print Assumptions C06_T_drawn_once.
 
 (* ---------------------------------------------------------------- one outcome *)
 (* For every event sequence - any number of messages and sessions, ACK / RST at any time,
@@ -209,6 +271,30 @@ Theorem C06_known_ack_rst : forall st s m t n q',
        :: snd (rt_fire_all (rt_set_q st q'))).
 Proof. exact rt_known_ack_rst. Qed.
 Print Assumptions C06_known_ack_rst.
+
+(* coap_session_disconnected (reason other than ICMP_ISSUE): exactly the messages of that session
+   leave the queue, one NACK call each, in queue order; every message of every other session keeps
+   its deadline and place (this is C06_queue_cancel at work); covered by C06_one_outcome too *)
+Theorem C06_disconnect : forall st s reason,
+  let (st', o) := rt_disconnect st s reason in
+  sq_abs (rs_base st') (rs_q st') =
+    filter (fun e => negb (rt_sess_match s (snd e))) (sq_abs (rs_base st) (rs_q st)) /\
+  rs_now st' = rs_now st /\
+  let rm := filter (rt_sess_match s) (rt_nodes (rs_q st)) in
+  o = match rm with
+      | [] => [RoNackNoPdu (rs_now st) s reason 0]
+      | _ => map (rt_nack_of (rs_now st) reason) rm
+      end.
+Proof. exact rt_disconnect_spec. Qed.
+Print Assumptions C06_disconnect.
+
+(* as the function was before the repair, the first queued message of the session got two NACK
+   calls (finding F06-3, fixed) *)
+Theorem C06_disconnect_old_refuted : exists st s reason u,
+  reason <> rt_NACK_TOO_MANY_RETRIES /\ reason <> rt_NACK_ICMP_ISSUE /\
+  rt_proj u (snd (rt_disconnect_old st s reason)) = [PNack reason 0 4; PNack reason 0 4].
+Proof. exact rt_disconnect_old_double_nack. Qed.
+Print Assumptions C06_disconnect_old_refuted.
 
 (* ---------------------------------------------------------------- the reported wait *)
 (* In every reachable state a prepare call fires everything that is due (its loop bound is never
